@@ -135,7 +135,7 @@ Proof. intros Ty. unfold advance_q at 1. rewrite Ty. reflexivity. Qed.
 Definition is_st (t : task) : bool := match t_btype t with BOnStartup => true | _ => false end.
 
 Definition st_like (t : task) : Prop :=
-  t_type t = HookRun /\ t_btype t = BOnStartup /\ t_queue t = no_queue /\ t_allow t = false.
+  t_type t = HookRun /\ t_btype t = BOnStartup /\ t_queue t = no_queue /\ t_allow t = false /\ t_mids t = [].
 
 Lemma st_like_is_st t : st_like t -> is_st t = true.
 Proof. intros (_ & B & _). unfold is_st. now rewrite B. Qed.
@@ -144,7 +144,7 @@ Lemma startup_task_st_like h : st_like (startup_task h).
 Proof. repeat split. Qed.
 
 Lemma incr_fail_st_like t : st_like t -> st_like (incr_fail t).
-Proof. intros (A & B & C & D). repeat split; assumption. Qed.
+Proof. intros (A & B & C & D & E). repeat split; assumption. Qed.
 
 Definition idle_empty (q : qstate) : Prop := q_items q = [] /\ q_running q = None /\ q_delay q = false.
 
@@ -345,11 +345,11 @@ Proof.
       * simpl app. destruct md.
         -- apply (advance_J _ (t0 :: sts') others (Some false) true Qs); simpl; auto.
            intros _. rewrite ?andb_false_r, ?A, ?B, ?C. repeat split; auto.
-        -- destruct Ht0 as (T1 & T2 & T3 & T4). rewrite T4, orb_false_r.
+        -- destruct Ht0 as (T1 & T2 & T3 & T4 & T5). rewrite T4, T5, orb_false_r, ?app_nil_r.
            assert (Hst0 : st_like t0) by (repeat split; auto).
            destruct (stopped s) eqn:Ss.
            ++ apply (advance_J _ (t0 :: sts') others None false Qs); simpl; auto.
-              intros _. rewrite ?andb_false_r, ?A, ?B, ?C. repeat split; auto.
+              intros _. rewrite ?andb_false_r, ?A, ?B, ?C. repeat split; auto; destruct ok; reflexivity.
            ++ destruct ok.
               ** simpl. apply (advance_J _ sts' others None false Qs); simpl; auto.
                  intros _. rewrite ?andb_false_r, ?A, ?B, ?C. repeat split; auto.
